@@ -456,7 +456,7 @@ def rule_one_shot_iter(ctx, rep, rule_id="R-ONE-SHOT-ITER"):
         raise AnalysisError(f"only {n} names bound to one-shot iterators found")
 
 
-READER_MODULES = ("codemodder.result", "codemodder.sarifs", "codemodder.semgrep", "codemodder.codemods.semgrep", "codemodder.codeql", "codemodder.codemods.codeql",
+INDEX_READER_MODULES = ("codemodder.result", "codemodder.sarifs", "codemodder.semgrep", "codemodder.codemods.semgrep", "codemodder.codeql", "codemodder.codemods.codeql",
                   "core_codemods.sonar.results", "core_codemods.defectdojo.results", "core_codemods.semgrep.api")
 
 
@@ -470,7 +470,7 @@ def rule_index_zero(ctx, rep, rule_id="R-INDEX-ZERO"):
     )
     n = 0
     for fn in ctx.prog.live_functions():
-        if not fn.module.name.startswith(READER_MODULES):
+        if not fn.module.name.startswith(INDEX_READER_MODULES):
             continue
         idx_names = set()
         idx_exprs = []
